@@ -461,7 +461,9 @@ def write_replay(prop, obj):
 
 
 def write_evidence(prop, tier, seed, level, coverage, assumptions, wall, violations):
-    d = os.path.join(ROOT, "evidence")
+    # evidence under /verif/evidence always describes /repo itself; runs against another tree (VERIF_REPO) keep theirs apart
+    d = os.path.join(ROOT, "evidence") if (os.path.realpath(REPO) == "/repo" and not os.environ.get("VERIF_SCRATCH_EVIDENCE")) \
+        else os.path.join(BUILD, "evidence-other-tree")
     os.makedirs(d, exist_ok=True)
     ev = {"property_id": prop, "tier": tier, "seed": seed, "level": level, "coverage": coverage,
           "assumptions": assumptions, "wall_s": round(wall, 2), "violations": violations}
